@@ -14,10 +14,35 @@ EXPLANATION = (
     'source) minus the constant FORGIVENESS_PERIOD (3600 s in the shipped configuration) with a saturating subtraction; '
     'P4 actor side (re-add on failed purge, keys = purge result) is C02.O3. NOT decided: the cluster-level equivalence of '
     'purging and non-purging runs.')
+# P3 also: the cut-off table has a single writer (the cut-off computation)
 ASSUMPTIONS = ['operations reach every replica within the forgiveness period (property precondition)']
 
 OS = 'datacake_crdt::orswot::OrSWotSet::'
 NV = 'datacake_crdt::orswot::NodeVersions::'
+
+
+def cutoff_writers(facts, pred_name):
+    """NodeVersions methods that write (mutably borrow + insert / assign) the field the cut-off predicate reads"""
+    pred_body = facts.body(NV + pred_name)
+    pred_fields = gate.self_fields_accessed(facts, pred_body) if pred_body is not None else set()
+    nvn = field_names(facts, 'datacake_crdt::orswot::NodeVersions')
+    out = []
+    for b_ in facts.bodies.values():
+        if b_.crate != 'datacake_crdt' or not b_.name.startswith(NV) or b_.kind != 'method' or b_.d['promoted'] or b_.derived:
+            continue
+        hit = False
+        for _bb, _j, s_ in b_.assigns():
+            rv = s_['rv']
+            if rv['k'] == 'ref' and rv['mut'] and rv['pl']['l'] == 1 and len(rv['pl']['p']) == 2 and isinstance(rv['pl']['p'][1], dict) \
+                    and rv['pl']['p'][1]['f'] < len(nvn) and nvn[rv['pl']['p'][1]['f']] in pred_fields:
+                hit = True
+            lhs = s_['lhs']
+            if lhs['l'] == 1 and len(lhs['p']) >= 2 and lhs['p'][0] == '*' and isinstance(lhs['p'][1], dict) and lhs['p'][1]['f'] < len(nvn) \
+                    and nvn[lhs['p'][1]['f']] in pred_fields:
+                hit = True
+        if hit:
+            out.append(b_)
+    return sorted(out, key=lambda b: b.name)
 
 
 def field_names(facts, adt):
@@ -139,17 +164,14 @@ def check(ctx):
         ctx.bad('C08.P2', 'predicate|strict', '', 'no comparison found in the cut-off predicate (fail closed)')
 
     # ---- P3 ---------------------------------------------------------------------
-    cs = None
-    pred_body = facts.body(NV + PRED)
-    pred_fields = gate.self_fields_accessed(facts, pred_body) if pred_body is not None else set()
-    nvn = field_names(facts, 'datacake_crdt::orswot::NodeVersions')
-    for b_ in facts.bodies.values():
-        if b_.crate == 'datacake_crdt' and b_.name.startswith(NV) and b_.kind == 'method' and not b_.d['promoted']:
-            for _bb, _j, s_ in b_.assigns():
-                if s_['rv']['k'] == 'ref' and s_['rv']['mut'] and s_['rv']['pl']['l'] == 1 and len(s_['rv']['pl']['p']) == 2 \
-                        and isinstance(s_['rv']['pl']['p'][1], dict) and nvn[s_['rv']['pl']['p'][1]['f']] in pred_fields \
-                        and any(cname(t_) and cname(t_).endswith('BTreeMap::insert') for _x, t_ in b_.calls()):
-                    cs = b_
+    writers = cutoff_writers(facts, PRED)
+    with_min = [b_ for b_ in writers if any(cname(t_) and re.search(r'Iterator::(min|max|min_by_key|max_by_key)$|cmp::(Ord::)?(min|max)$', cname(t_)) for _x, t_ in b_.calls())]
+    cs = with_min[0] if with_min else (writers[0] if writers else None)
+    extra = [b_ for b_ in writers if b_ is not cs]
+    ctx.ob('C08.P3', 'cutoff|single-writer', len(writers) >= 1 and not extra, site(extra[0]) if extra else (site(cs) if cs else ''),
+           'the cut-off table is written only by the cut-off computation (%s)' % (cs.name.rsplit('::', 1)[1] if cs else '?') if writers and not extra else
+           'the cut-off table is also written by %s, bypassing the min-over-all-sources / forgiveness computation: replicas that learn a stamp on that path '
+           'purge and refuse differently from those that learn it on the other' % [b_.name.replace('datacake_crdt::orswot::', '') for b_ in extra])
     if cs is None:
         ctx.bad('C08.P3', 'anchor', '', 'compute_safe_last_stamp not found')
         return
